@@ -46,7 +46,7 @@ func NewSolver(kind string, timeoutMs int, logPath string) (*Solver, error) {
 	switch kind {
 	case "z3":
 		cmd = exec.Command("z3", "-in")
-	case "z3-new", "z3-new-t":
+	case "z3-new", "z3-new-t", "z3-new-m":
 		// z3-new-t: every check runs the default tactic pipeline (simplify, bit-blast, sat) on the current
 		// assertion stack instead of the incremental core; much faster on arithmetic-heavy bit-vector queries
 		cmd = exec.Command("z3-new", "-in")
@@ -218,12 +218,24 @@ func (s *Solver) SyncPC(pc []*Term) {
 
 func (s *Solver) checkSat() SatResult {
 	t0 := time.Now()
+	var r SatResult
 	if s.kind == "z3-new-t" {
 		s.send(fmt.Sprintf("(check-sat-using (try-for default %d))", s.timeoutMs))
+		r = s.readResult()
+	} else if s.kind == "z3-new-m" {
+		// cheap attempt on the incremental core first, the tactic pipeline when that does not answer quickly
+		s.send("(set-option :timeout 100)")
+		s.send("(check-sat)")
+		r = s.readResult()
+		if r == Unknown && !s.dead {
+			s.send(fmt.Sprintf("(set-option :timeout %d)", s.timeoutMs))
+			s.send(fmt.Sprintf("(check-sat-using (try-for default %d))", s.timeoutMs))
+			r = s.readResult()
+		}
 	} else {
 		s.send("(check-sat)")
+		r = s.readResult()
 	}
-	r := s.readResult()
 	s.Time += time.Since(t0)
 	if s.log != nil {
 		fmt.Fprintf(s.log, "; query %d took %d ms\n", s.Queries, time.Since(t0).Milliseconds())
